@@ -6,7 +6,7 @@
 
 import logging
 from collections import defaultdict
-from typing import Optional, cast
+from typing import Iterator, Optional, cast
 
 from clingo.ast import (
     AST,
@@ -219,8 +219,17 @@ class SumAggregator:
         This only keeps tuples (un)equal if the group variables are already part of the tuple or fixed from outside"""
         trigger_lit, _, trigger_anon_pred = trigger
         visible: set[AST] = set(outer_vars)
+
+        def characteristic(term: AST) -> Iterator[AST]:
+            """variables whose value can be read off the term: not the ones inside arithmetic (G/2 merges groups)"""
+            if term.ast_type == ASTType.Variable:
+                yield term
+            elif term.ast_type == ASTType.Function:
+                for arg in term.arguments:
+                    yield from characteristic(arg)
+
         for term in terms:
-            visible.update(collect_ast(term, "Variable"))
+            visible.update(characteristic(term))
         for index, arg in enumerate(trigger_lit.atom.symbol.arguments):
             if index in trigger_anon_pred.annotated_positions:
                 continue
